@@ -223,6 +223,7 @@ def run_history(kind, unix, hist, final=True):
                 break
         box["key"] = sy.key()
         box["enabled"] = sy.enabled()
+        box["nhist"] = len(sy.viol)
         if final and not sy.viol:
             sy.finish()
         else:
@@ -242,6 +243,10 @@ def run_history(kind, unix, hist, final=True):
         viol.append(("scheduler:%s:%s" % (kind, sch.outcome), repr(sch.deadlock_info)))
     if sy is not None:
         viol.extend(sy.viol)
+    # a violation seen while the history itself was applied ends that branch; one seen only in the final drive to
+    # quiescence (which is not part of the state) does not: the successors are still explored
+    box["prune"] = bool(box.get("nhist")) or bool(viol and sy is None) or ("exc" in b2) or sch.outcome != "done"
+    run_history.last_prune = box["prune"]
     return viol, box.get("key"), box.get("enabled", [])
 
 
@@ -251,7 +256,7 @@ def make_expand(kind, unix):
         h = list(hist) + [ev]
         viol, key, enabled = run_history(kind, unix, h)
         viol = [(s, "history %r: %s" % (h, t)) for s, t in viol]
-        return key, enabled if not viol else [], viol, None
+        return key, enabled if not run_history.last_prune else [], viol, None
     return expand
 
 
